@@ -169,8 +169,9 @@ class InitGlobals(Unit):
     int_mode = 'int'
     functions = ('minecraft.initglobals',)
     trusted = ('list / dict / OrderedDict semantics (append, in, item assignment, clear, items order)', 're.match as a predicate on ids')
-    timeout_ms = 30000
-    wall_budget_s = 600
+    timeout_ms = 8000
+    branch_timeout_ms = 1500
+    wall_budget_s = 300
     max_paths = 400
 
     def setup(self, I):
@@ -311,7 +312,10 @@ class CheckedForSpec(ForSpec):
             j = E.new_int('%s.j' % self.label, 0, None)
             E.assume(j < n)
             self.havoc(I, frame, j)
+            assumed = self.conjuncts(j)
+            k0 = len(E.pc)
             E.assume(self.invariant(I, frame, j))
+            k1 = len(E.pc)
             I.assign(node.target, self.element(I, it, j), frame)
             try:
                 I.exec_block(node.body, frame)
@@ -319,8 +323,29 @@ class CheckedForSpec(ForSpec):
                 return
             except _Continue:
                 pass
+            # Each conjunct is discharged against the path facts plus only the invariant conjuncts of ITS OWN table
+            # (fewer assumptions: still sound, and it keeps the quantified queries small).
+            import time as _t
+            from pyvc.engine import Obligation, DISCHARGED, FAILED, UNKNOWN
+            facts = E.pc[:k0] + E.pc[k1:]
             for nm, f in self.conjuncts(j + 1).items():
-                E.check('%s.preserved.%s' % (self.label, nm), SBool(f), kind='loop')
+                group = nm.split('.')[0]
+                s = z3.Solver()
+                s.set('timeout', E.timeout_ms)
+                s.add(*facts)
+                s.add(*[g for gn, g in assumed.items() if gn.split('.')[0] == group])
+                s.add(z3.Not(f))
+                t0 = _t.time()
+                r = s.check()
+                if r != z3.unsat:
+                    # fall back to the full path condition before giving a verdict
+                    ok = E.check('%s.preserved.%s' % (self.label, nm), SBool(f), kind='loop')
+                    continue
+                E.queries += 1
+                E.solver_time += _t.time() - t0
+                E.obligations.append(Obligation(E.unit, '%s.preserved.%s' % (self.label, nm), E.path_id, DISCHARGED,
+                                                'z3-%s' % z3.get_version_string(), _t.time() - t0, kind='loop',
+                                                note='discharged from the path facts and the invariant of table %s only' % group))
             raise PathEnd('loop body verified')
         self.havoc(I, frame, n)
         E.assume(self.invariant(I, frame, n))
